@@ -91,6 +91,8 @@ def enumerate_cases(tier):
                     "batch": rnd.choice([3, 4, 5]), "hidden": 3, "seed": rnd.randrange(2 ** 31), "tdep": True,
                     "fscale": 1.0, "gscale": 0.7, "dtype": "float64"}
             yield {"kind": kind, "spec": spec, "combo": combo, "logqp": logqp, "row": rnd.randrange(6),
+                   # the replaced rows may also hold NaN (a sample that has blown up): the kept row must not notice
+                   "others_nan": kind == "perturb" and not logqp and (combo["method"] == "milstein" or idx % 3 == 0),
                    "time": {"t0": 0.0, "t1": 0.625, "dt": 0.125, "tdtype": "float64"},
                    "entropy": rnd.randrange(2 ** 31 - 2), "entropy2": rnd.randrange(2 ** 31 - 2),
                    "perm_seed": rnd.randrange(2 ** 31)}
@@ -226,6 +228,7 @@ def _run_noise(case):
     sig = {"kind": "noise", "levy": cfg["levy"]}
 
     seed_sizes = {}
+    wrong_shape = []
 
     def run(bump):
         real = bi._randn
@@ -233,6 +236,9 @@ def _run_noise(case):
         def fake(size, dtype, device, seed):
             out = real(size, dtype, device, seed)
             seed_sizes.setdefault(int(seed), set()).add(tuple(size))
+            if tuple(out.shape) != tuple(size):
+                wrong_shape.append((tuple(size), tuple(out.shape)))
+                return out
             if bump and len(size) >= 1 and size[0] == shape[0]:
                 # a different amount for every noise tensor: equal bumps cancel exactly in the right half of a midpoint
                 # bridge (W - left_W), which would look like "row r does not react to its own noise"
@@ -243,9 +249,19 @@ def _run_noise(case):
             bm, interval, _ = history.build(cfg, torchsde, torch)
             return [bm(a, b) for (a, b) in queries], interval
 
-    base, interval = run(False)
-    pert, _ = run(True)
+    try:
+        base, interval = run(False)
+        pert, _ = run(True)
+    except (RuntimeError, IndexError):
+        if not wrong_shape:
+            raise
+        base = pert = interval = None
     checks = 1
+    if wrong_shape:
+        return Result(nontrivial=True, checks=checks, fail=Fail(
+            "noise_tensor_of_another_shape", f"the noise generator was asked for a tensor of shape {list(wrong_shape[0][0])} and "
+                                             f"returned one of shape {list(wrong_shape[0][1])}: the elements of this sample are "
+                                             f"not driven by noise elements of their own", sig))
     shared = [sd for sd, sz in seed_sizes.items() if len(sz) > 1]
     if shared:
         # a generator seeded alike produces the same leading numbers whatever the shape: the elements of one noise tensor
@@ -261,6 +277,10 @@ def _run_noise(case):
             if x is None:
                 continue
             checks += 1
+            if tuple(x.shape[:len(shape)]) != tuple(shape) or tuple(y.shape) != tuple(x.shape):
+                return Result(nontrivial=True, checks=checks, fail=Fail(
+                    "noise_tensor_of_another_shape", f"{name}{(a, b)} has shape {list(x.shape)} / {list(y.shape)} for a Brownian "
+                                                     f"motion of shape {list(shape)}", sig))
             rows = [k for k in range(shape[0]) if not torch.equal(x[k], y[k])]
             if any(k != r for k in rows):
                 return Result(nontrivial=True, checks=checks, fail=Fail(
